@@ -596,6 +596,19 @@ theorem printfN_below_bound (fmt : List Char) (args : List Arg) (out : List Char
     printfN fmt args = .done out pc [] :=
   loop_to_loopN_below _ fmt args [] 0 [] out pc rfl h hb hg
 
+/-- the `int` computations INSIDE print_i (`min_len + prefix_len`, `… - len -
+prefix_len`, `width - len - prefix_len - zero_count`, `pc` after every `pc +=`;
+`printIInts` lists them in the order of the C text): whenever the value print_i
+returns fits an `int` — and `loopN` answers `intovf` otherwise — every one of
+them fits too (width and precision are nonnegative `int`s when `__printf` calls
+print_i).  So the guards of `printfN` (atoi, `-width`, the loop's `pc`) cover
+every signed overflow of the integer path -/
+theorem print_i_ints_in_range (u : BitVec 64) (isSigned : Bool) (width minLen : Int) (ops : Ops) (base : Nat)
+    (out : List Char) (pc : Int) (h : printI u isSigned width minLen ops base = some (out, pc))
+    (hw0 : 0 ≤ width) (hw : width ≤ INT_MAX) (hm0 : 0 ≤ minLen) (hpc : pc ≤ INT_MAX) :
+    ∀ x ∈ printIInts u isSigned width minLen ops base, -INT_MAX - 1 ≤ x ∧ x ≤ INT_MAX :=
+  printI_ints_range u isSigned width minLen ops base out pc h hw0 hw hm0 hpc
+
 /-- `printfN` terminates too -/
 theorem printfN_terminates (fmt : List Char) (args : List Arg) : printfN fmt args ≠ .diverged :=
   loopN_no_diverge _ fmt args [] 0 [] (Nat.lt_succ_self _)
@@ -677,6 +690,10 @@ example : ¬ IsoSupported "%#x".toList [.int 0] ∧ IsoDefined "%#x".toList [.in
     ¬ IsoSupported "%c".toList [.int 256] ∧ IsoDefined "%c".toList [.int 256] ∧
     ¬ IsoDefined "%lc".toList [.int 65] ∧ ¬ IsoDefined "%#d".toList [.int 1] ∧ ¬ IsoDefined "%5%".toList [] := by
   refine ⟨?_, ?_, ?_, ?_, ?_, ?_, ?_⟩ <;> decide
+
+-- print_i_ints_in_range: `%+08.3d` of 42 — the ints print_i computes
+example : printIInts 42 true 8 3 { sign := true, zero := true, prec := true } 10
+    = [1, 2, 4, 2, 1, 1, 6, 5, 4, 4, 4, 5, 6, 8, 8] := by decide
 
 -- printfN_below_bound: the guard holds on an ordinary format, fails on a 10-digit literal
 example : guardFree 30 "a=%-*.3lld|%+05d|%.2s".toList
